@@ -440,9 +440,10 @@ def _dedup(inp: Iterable[T]) -> Iterable[T]:
     in_set = set()
     result = []
     for item in inp:
-        if item not in in_set:
+        key = (type(item), item)  # 0 == False and 1 == True, but they are different literals
+        if key not in in_set:
             result.append(item)
-            in_set.add(item)
+            in_set.add(key)
     return result
 
 
